@@ -456,10 +456,12 @@ PLANS["C14"] = plan_simple(
     "search against an atomic register (update = atomic read-modify-write)", {"loads_overlapping_writes": 1000})
 
 PLANS["C13"] = plan_simple(
-    "C13", "leftright", r".", 64000, 1000000,
+    "C13", "leftright", r".", 32000, 400000,
     "each evaluation = 1-2 writers (update = set both fields of the instance to a unique id, in two steps with a preemption point in between) and 1-3 "
     "readers, <= 5 operations each, under one seeded schedule (every seq_cst operation, mutex operation and yield is a scheduling point); functor "
-    "overlap monitor per instance address, per-instance update logs, WGL search against an atomic register", {"reads_between_switch_and_second_apply": 500}, chunks=16)
+    "overlap monitor per instance address, per-instance update logs, WGL search against an atomic register; instance types: a 3-word trivially "
+    "copyable struct and a heap-owning type whose array is re-allocated by every update (a functor on the wrong instance touches freed memory); "
+    "all three constructors (one source, two sources, default)", {"reads_between_switch_and_second_apply": 500}, chunks=16)
 
 def plan_harris(prop, pattern, execs_quick, execs_thorough, rule, gate_counters, seq=False, hold=False, eager=()):
     def targets(tier):
